@@ -41,10 +41,11 @@ CODEVARIANT = TODAY
 
 
 # ------------------------------------------------------------------------------------------- M
-def mc(ctx, name, rasters, sels, variant=TODAY, mut="none", ties="stable", expect="ok", inv=None, stats=STATS_M):
+def mc(ctx, name, rasters, sels, variant=TODAY, mut="none", ties="stable", expect="ok", inv=None, stats=STATS_M,
+       small=False):
     cfg = dict(spec="Spec", invariants=inv or INV, constants=dict(
         Rasters=R(rasters), Selections=R(sels), STATS=R(stats), TIES=ties, VARIANT=R(variant), MUT=mut))
-    return U.checked_mc(ctx, "ZonalStats", cfg, name, expect)
+    return U.checked_mc(ctx, "ZonalStats", cfg, name, expect, small=small)
 
 
 def model_checks(ctx):
@@ -55,11 +56,14 @@ def model_checks(ctx):
     six = "{<<0-1, 0, 2, NAN, PINF, 2>>}"
     thorough = ctx.tier == "thorough"
     # the code of today, zone alphabets with -inf, NaN, +inf: every invariant holds
-    mc(ctx, "today_n3", "AllRasters(3, %s, %s)" % (z6, v5), s6)
+    if thorough:
+        mc(ctx, "today_n3", "AllRasters(3, %s, %s)" % (z6, v5), s6)
+    else:   # quick: 4 selections (R replays every raster with rotating selections through the real code)
+        mc(ctx, "today_n3", "AllRasters(3, %s, %s)" % (z6, v5), "Sels({NONE, 2}, {<<4, 0-2>>})")
     mc(ctx, "today_6cells", "FixedValueRasters(6, %s, %s)" % (z5n, six), "Sels({2}, {<<1, 0-2>>})")
     mc(ctx, "today_ties_any", "FixedValueRasters(4, {NINF, 1, 4, NAN}, {<<0, 2, NAN, 0-1>>, <<2, 2, 0, PINF>>})",
-       "Sels({NONE, 2}, {<<4>>})", ties="any")
-    mc(ctx, "today_lists_n2", "AllRasters(2, %s, {0, 2, NAN})" % z6, lists)     # every zone_ids list
+       "Sels({NONE, 2}, {<<4>>})", ties="any", small=True)
+    mc(ctx, "today_lists_n2", "AllRasters(2, %s, {0, 2, NAN})" % z6, lists, small=True)     # every zone_ids list
     if thorough:
         mc(ctx, "today_n3_s12", "AllRasters(3, %s, %s)" % (z6, v5), s12)
         mc(ctx, "today_n4", "AllRasters(4, %s, {0, 2, NAN})" % z6, s6)
@@ -133,6 +137,40 @@ def matrix_jobs(seed, nrasters, tag="layout_matrix"):
                 j = dict(b)
                 j.update(zlay=zl, vlay=vl, rt="df" if (k + a + c) % 2 else "da", tag=tag)
                 jobs.append(j)
+    return jobs
+
+
+TINY_IDS = {"0": -3e-9, "2": 0.0, "4": 2e-9, "6": 5e-9}     # code -> id; 6 is never a cell (requested only)
+
+
+def close_id_jobs(seed, count, tag="close_ids"):
+    """explicit zone_ids on rasters whose zone ids lie closer together than any float tolerance would separate:
+    large adjacent integers (100000, 100001, 100002, also the half ids between them) and floats a few 1e-9 apart
+    around 0 (through `zmap`); the request lists include an ABSENT id right next to a present one."""
+    rng = random.Random(seed * 7919 + 17)
+    jobs = []
+    for k in range(count):
+        H, W = rng.choice([(2, 3), (3, 3), (2, 2), (3, 4), (1, 6), (4, 2)])
+        n = H * W
+        tiny = k % 3 == 2
+        if tiny:
+            pool, absent = [0, 2, 4], [6]
+        else:
+            base = rng.choice([200000, 200000, 400000, 888880])           # ids 100000, 200000, 444440 (doubled)
+            step = rng.choice([2, 2, 1])                                   # consecutive integers / half ids
+            pool = [base, base + step, base + 2 * step]
+            absent = [base + 3 * step, base - step]
+        used = rng.sample(pool, rng.choice([2, 3, 3]))
+        z = [NAN if rng.random() < 0.1 else rng.choice(used) for _c in range(n)]
+        v = [NAN if rng.random() < 0.12 else rng.randrange(-9, 10) for _c in range(n)]
+        cand = pool + absent
+        idl = [[x] for x in cand] + [rng.sample(cand, rng.randrange(2, len(cand) + 1)) for _ in range(4)]
+        j = stats_job(rng, z, v, H, W, rng.choice(["df", "da"]), nds=[NONE, NONE, NAN, v[0] if U.finite(v[0]) else 0],
+                      idlists=idl, tag=tag, p_all=0.0)
+        if tiny:
+            j["zmap"] = dict(TINY_IDS)
+            j["zdt"] = "float64"
+        jobs.append(j)
     return jobs
 
 
@@ -289,7 +327,7 @@ def run_batch(ctx, fails, jobs, name, kind, size=80000):
         cases = U.flatten(cases)
         good = [c for c in cases if "error" not in c]
         v = ctx.judge("ZonalStats_Judge", [U.strip(c) for c in good], name="%s_%d" % (name, done),
-                      constants=dict(CODEVARIANT=R(CODEVARIANT)), parallel=8)
+                      constants=dict(CODEVARIANT=R(CODEVARIANT)), parallel=ctx.pick(6, 8), env=U.JVM_JUDGE)
         # re-index verdicts / extras onto the full case list
         idx = [i for i, c in enumerate(cases) if "error" not in c]
         vv = {idx[k]: cl for k, cl in v.items()}
@@ -352,7 +390,7 @@ def run(ctx):
     fails = U.Failures(ctx)
     thorough = ctx.tier == "thorough"
     # ---- R: the complete enumerations through the real code
-    jobs = enum_jobs(ctx.seed, 3, Z6, V5, both=True, tag="all_n3")
+    jobs = enum_jobs(ctx.seed, 3, Z6, V5, both=thorough, tag="all_n3")     # quick: DataFrame / DataArray alternate
     scope_check(ctx, jobs, 3, Z6, V5, "scope_n3")
     six = [[-1, 0, 2, NAN, PINF, 2], [2, 2, 0, -1, 0, NAN], [0, 1, 2, -1, -1, PINF]]
     jobs += enum_jobs(ctx.seed + 1, 6, Z6 if thorough else [NINF, -2, 1, NAN], None, both=False, tag="zones_6cells",
@@ -361,6 +399,7 @@ def run(ctx):
     jobs += random_jobs(ctx.seed, ctx.pick(1500, 40000))
     jobs += matrix_jobs(ctx.seed, ctx.pick(60, 600))
     jobs += seq_jobs(ctx.seed, ctx.pick(300, 3000))
+    jobs += close_id_jobs(ctx.seed, ctx.pick(600, 6000))
     run_batch(ctx, fails, jobs, "replay_and_random", "R/T")
     if thorough:
         run_batch(ctx, fails, enum_jobs(ctx.seed + 2, 4, Z6, V5, both=False, tag="all_n4"), "replay_n4", "R")
